@@ -235,13 +235,13 @@ def _non_identity_subclasses(repo) -> Tuple[List[str], List[str]]:
     return [c.name for c in ident], bad
 
 
-def _r3(chk, repo):
+def identity_guards(chk, repo, rule="C03-R3", prefix="cuqi/", floor=10):
     ident, nonident = _non_identity_subclasses(repo)
-    chk.note(f"C03-R3 identity geometries {ident}; subclasses of them with their own par2fun (non-identity): {nonident}")
+    chk.note(f"{rule} identity geometries {ident}; subclasses of them with their own par2fun (non-identity): {nonident}")
     # every site that consults the identity list (directly or through a local alias of it)
     from ..index import enclosing_function, enclosing_class
     nsites = 0
-    for m in repo.modules.values():
+    for m in [mm for mm in repo.modules.values() if mm.rel.startswith(prefix)]:
         fns = [n for n in ast.walk(m.tree) if isinstance(n, (ast.FunctionDef, ast.AsyncFunctionDef))]
         for fn in fns:
             if fn.name == "_get_identity_geometries":
@@ -272,12 +272,16 @@ def _r3(chk, repo):
                 for u, exact in uses:
                     nsites += 1
                     inst = f"{m.rel}:{ec.name + '.' if ec else ''}{fn.name}/identity-guard({unparse(u.left if isinstance(u, ast.Compare) else u.args[0])[:40]})"
-                    chk.add("C03-R3", inst, exact or not nonident, f"{m.rel}:{u.lineno}",
+                    chk.add(rule, inst, exact or not nonident, f"{m.rel}:{u.lineno}",
                             "identity-geometry guard tests the exact type",
                             f"identity-geometry guard `{unparse(u)[:90]}` is not an exact-type test, but {nonident} subclass an identity "
                             f"geometry with a non-identity par2fun: gradients would be returned for them without the chain rule", u)
-    if nsites < 10:
-        raise AnchorError(f"{nsites} identity-geometry guard uses found, 10 confirmed by hand")
+    if nsites < floor:
+        raise AnchorError(f"{nsites} identity-geometry guard uses found, {floor} confirmed by hand")
+
+
+def _r3(chk, repo):
+    identity_guards(chk, repo)
     # Model.gradient
     model = repo.cls("cuqi/model/_model.py:Model")
     gfn = repo.method(model, "gradient")[1]
